@@ -392,7 +392,9 @@ def check_point(sc, solver, validate_vectors=None):
         vgoal, want = pm.validation_goal(vec, real_out, real_trace)
         res, _ = T.query(solver, pm.enc, vgoal)
         out["validated"] += 1
-        if res != want:
+        if res == "unknown":
+            out["validation_unknown"] = out.get("validation_unknown", 0) + 1
+        elif res != want:
             out["validation_bad"].append("inputs %s: real JIT gave %s / %s, the model says that is %s" % (
                 ["0x%08x" % v for v in vec], ["0x%08x" % v for v in real_out], real_trace,
                 "impossible" if want == "sat" else "not implied (%s)" % res))
@@ -460,3 +462,179 @@ def real_runs_vec(sc, kind, vecs):
         out.append(([int(w, 16) for w in r["vars"].split()], [int(w, 16) for w in r["out"].split()], r.get("trace"),
                     [int(w, 16) for w in r.get("vm_out", "").split()], r.get("vm_trace")))
     return out
+
+
+# ---------------------------------------------------------------------------
+# float-slice assembler: rdi = *const *const f32, rsi = *const *mut f32, rdx = size
+
+STRIDE = 0x100
+
+
+class FsliceModel:
+    def __init__(self, sc, size):
+        self.sc = sc
+        self.size = size
+        self.enc = Enc2(fp=True, mode="base")
+        enc = self.enc
+        nv, no = max(sc.nvars, 1), sc.nout
+        regions = [X.Region("var_ptrs", A_BASE, 8 * nv, writable=False), X.Region("out_ptrs", B_BASE, 8 * no, writable=False)]
+        for i in range(nv):
+            regions.append(X.Region("var%d" % i, E_BASE + i * STRIDE, 4 * size, writable=False))
+        for i in range(no):
+            regions.append(X.Region("out%d" % i, F_BASE + i * STRIDE, 4 * size))
+        m0 = X.Machine(enc.lines, regions, STACK_TOP, STACK_LEN)
+        m0.g[7], m0.g[6], m0.g[2], m0.g[4] = A_BASE, B_BASE, size, STACK_TOP
+        for i in range(nv):
+            m0.mem[A_BASE + 8 * i] = E_BASE + i * STRIDE
+            m0.mem[A_BASE + 8 * i + 4] = 0
+        for i in range(no):
+            m0.mem[B_BASE + 8 * i] = F_BASE + i * STRIDE
+            m0.mem[B_BASE + 8 * i + 4] = 0
+        self.init_callee = {r: m0.g[r] for r in (3, 5, 12, 13, 14, 15)}
+        names = {}
+        for c in sc.calls:
+            off, addr, nm = c.split(":")
+            if nm.startswith("un"):
+                raise X.Unsupported("callback at %s could not be identified" % addr)
+            names[int(addr, 16)] = nm
+        self.abi = []
+        self.inputs = [[m0.load32(E_BASE + i * STRIDE + 4 * l) for l in range(size)] for i in range(sc.nvars)]
+        self.paths = sym_exec(sc.code, m0, make_call_hook(enc, names, self.abi))
+        self.lane_outs = []
+        self.minmax = False
+        for l in range(size):
+            outs, _, mm = spec_program(enc, sc.ops, [col[l] for col in self.inputs])
+            self.minmax |= mm
+            self.lane_outs.append(outs)
+        self.has_calls = any(p.m.calls for p in self.paths)
+
+    def property_goal(self):
+        """Returns (problems, [goal per (output, lane) + one for the frame])"""
+        sc = self.sc
+        problems = list(self.abi)
+        per = {}
+        for p in self.paths:
+            m = p.m
+            frame = []
+            if m.oob:
+                problems.append("out-of-bounds access: %s" % [(k, hex(a)) for k, a in m.oob[:3]])
+            if m.g[4] != STACK_TOP + 8:
+                problems.append("rsp not restored: %r" % (m.g[4],))
+            for r, v in self.init_callee.items():
+                if m.g[r] != v:
+                    frame.append("(= %s %s)" % (X.T(m.g[r], 64), X.T(v, 64)))
+            if any(a >= STACK_TOP for a in m.writes):
+                problems.append("wrote into the caller's frame")
+            c = X.band(*p.conds)
+            if frame:
+                per.setdefault("frame", []).append("(and %s (not (and %s)))" % (c, " ".join(frame)))
+            for i in range(sc.nout):
+                for l in range(self.size):
+                    a = F_BASE + i * STRIDE + 4 * l
+                    if a not in m.writes:
+                        problems.append("output %d lane %d never written" % (i, l))
+                        continue
+                    per.setdefault((i, l), []).append("(and %s (not %s))" % (c, rel(m.mem[a], self.lane_outs[l][i], self.minmax)))
+        goals = ["(or %s)" % " ".join(v) if len(v) > 1 else v[0] for v in per.values()]
+        return problems, goals
+
+    def validation_goal(self, vec, real_out):
+        """vec: nvars*size input words (column-major); real_out: nout*size words"""
+        pre = []
+        for i, col in enumerate(self.inputs):
+            for l, x in enumerate(col):
+                if isinstance(x, str):
+                    pre.append("(= %s %s)" % (x, X.bv(vec[i * self.size + l], 32)))
+        disj = []
+        for p in self.paths:
+            m = p.m
+            ok = []
+            for i in range(self.sc.nout):
+                for l in range(self.size):
+                    v = real_out[i * self.size + l]
+                    got = X.T(m.mem.get(F_BASE + i * STRIDE + 4 * l, 0), 32)
+                    if (v & 0x7F800000) == 0x7F800000 and (v & 0x7FFFFF):
+                        ok.append(X.isnan(got))
+                    else:
+                        ok.append("(= %s %s)" % (got, X.bv(v, 32)))
+            disj.append((X.band(*p.conds), "(and %s)" % " ".join(ok)))
+        if self.has_calls:
+            return "(and %s (or %s))" % (" ".join(pre), " ".join("(and %s %s)" % (c, k) for c, k in disj)), "sat"
+        return "(and %s (or %s))" % (" ".join(pre), " ".join("(and %s (not %s))" % (c, k) for c, k in disj)), "unsat"
+
+
+def check_fslice(sc, solver, validate_vectors=None):
+    out = {"paths": 0, "validated": 0, "validation_bad": [], "status": "unsat"}
+    for size in (8, 16, 0):
+        try:
+            fm = FsliceModel(sc, size)
+        except X.Unsupported as e:
+            return {"status": "error", "error": "size %d: %s" % (size, e)}
+        out["paths"] += len(fm.paths)
+        if size == 8 and not (fm.has_calls and len(sc.ops) > 8):
+            for vec, real_out in validate_vectors or []:
+                vgoal, want = fm.validation_goal(vec, real_out)
+                res, _ = T.query(solver, fm.enc, vgoal, fallback_prelude=T.PRELUDE_FP)
+                out["validated"] += 1
+                if res == "unknown":
+                    out["validation_unknown"] = out.get("validation_unknown", 0) + 1
+                elif res != want:
+                    out["validation_bad"].append("inputs %s: real JIT output is %s under the model" % (
+                        ["0x%08x" % v for v in vec[:4]], "impossible" if want == "sat" else "not implied (%s)" % res))
+        problems, goal = fm.property_goal()
+        if problems:
+            out.update(status="fail", problems=["size %d: %s" % (size, p) for p in problems])
+            return out
+        xs = [x for col in fm.inputs for x in col if isinstance(x, str)]
+        for goal in goal:
+            res, model = T.query(solver, fm.enc, goal, xs, fallback_prelude=T.PRELUDE_FP)
+            if res != "unsat":
+                out.update(status=res, inputs=xs, size=size)
+                if res == "sat":
+                    out["model"] = model
+                return out
+    return out
+
+
+def work_fslice(chunk):
+    global _solver2
+    if _solver2 is None:
+        _solver2 = Solver("z3", timeout_ms=20000)
+        _solver2.send(T.PRELUDE_FP)
+    t0 = _solver2.time_s
+    out = []
+    for sc, vv in chunk:
+        r = check_fslice(sc, _solver2, vv)
+        r["sid"] = sc.sid
+        out.append(r)
+    return out, _solver2.time_s - t0
+
+
+def real_runs_fslice(scs, count):
+    """8-lane runs of the real float-slice JIT function and the interpreter."""
+    out = {}
+    reqs = []
+    for s in scs:
+        if s.nvars == 0:
+            continue
+        rnd = random.Random(seed() + s.sid)
+        vecs = []
+        for _ in range(count):
+            vecs.append([rnd.choice(jitgen_specials()) if rnd.random() < 0.5 else
+                         struct.unpack("<I", struct.pack("<f", rnd.uniform(-8, 8)))[0] for _ in range(8 * s.nvars)])
+        reqs.append(s.req(vecs))
+    p = subprocess.run([T.TVDUMP, "jitrun", "fslice"], input="\n".join(reqs) + "\n", capture_output=True, text=True)
+    for line in p.stdout.splitlines():
+        try:
+            r = json.loads(line)
+        except Exception:
+            continue
+        out.setdefault(r["id"], []).append(([int(w, 16) for w in r["vars"].split()], [int(w, 16) for w in r["out"].split()],
+                                             None, [int(w, 16) for w in r.get("vm_out", "").split()], None))
+    return out
+
+
+def jitgen_specials():
+    import jitgen
+
+    return jitgen.SPECIALS
